@@ -48,8 +48,16 @@ def make_fn(kind):
         def f(x, y):
             m = x * y
             return [m, x] if x.value % 2 else [m, y]
+    elif kind == "closure":        # the callee hands a wire of the CALLER's context (captured by closure) to a nested sub-circuit
+        sqm = make_fn("madd")
+        @qb.subqap("closure")
+        def f(x, y):
+            v = x * x
+            return sqm(v, CAPT[0]) + y
     else: raise ValueError(kind)
     return f
+
+CAPT = [None]
 
 FN = {}
 regs = {}
@@ -57,7 +65,9 @@ err = None
 try:
     for st in sc["steps"]:
         op = st[0]
-        if op == "priv": regs[st[1]] = PrivVal(st[2])
+        if op == "priv":
+            regs[st[1]] = PrivVal(st[2])
+            if CAPT[0] is None: CAPT[0] = regs[st[1]]           # the first secret of the main context
         elif op == "pub": regs[st[1]] = PubVal(st[2])
         elif op == "bin":
             a, b = regs[st[3]], (regs[st[4]] if isinstance(st[4], str) else st[4])
